@@ -514,6 +514,19 @@ ECOMPS = [
                 'for {I}, ({V}, {V2}) in enumerate(zip(xs, ys))])', 'T'),
     ('shEZ-ez', 'sum([sum([{V2} * {T} + {W} for {T}, ({W}, {V2}) in enumerate(zip(ys, xs))]) + {I} * {V} + {V2} '
                 'for {I}, ({V}, {V2}) in enumerate(zip(xs, ys))])', False),
+    # the same index / element / source name at two levels: an accessor substituted for the outer target
+    # must not be captured by the inner binding (the outer element is used inside the inner one)
+    ('cap-idx', '[[{V2} * {W} + {V} for {V}, {W} in enumerate(ys)] for {V}, {V2} in enumerate(xs)]', 'C'),
+    ('cap-idx-plain', '[[{V2} * {W} + {V} for {V} in ys for {W} in xs] for {V}, {V2} in enumerate(xs)]', 'C'),
+    ('cap-idx-stage', '[{V2} + {V} + 2 * {W} for {V}, {V2} in enumerate(xs) for {V}, {W} in enumerate(ys)]', 'C'),
+    ('cap-elt', '[sum([{V2} * {V} for {V}, {V2} in enumerate(ys)]) + {V2} * {V} for {V}, {V2} in enumerate(xs)]', 'C'),
+    ('cap-ez-idx', '[[{V} * {W} + {I} for {I}, {W} in enumerate(ys)] '
+                   'for {I}, ({V}, {V2}) in enumerate(zip(xs, ys))]', 'C'),
+    ('cap-zip-elt', '[sum([{V} * {V2} for {V}, {V2} in zip(ys, ys)]) + {V} + 2 * {V2} '
+                    'for {V}, {V2} in zip(xs, ys)]', 'C'),
+    ('cap-zip-stage', '[{V} + 2 * {V2} for {V}, {V2} in zip(xs, ys) for {V} in ys]', 'C'),
+    ('cap-src', '[[{V2} * {W} + xs for xs in ys for {W} in ys] for {V}, {V2} in enumerate(xs)]', 'C'),
+    ('cap-src-zip', '[[{V} * {W} + 2 * {V2} + ys for ys in xs for {W} in xs] for {V}, {V2} in zip(xs, ys)]', 'C'),
     ('shW-d2', 'sum([sum([{P} * {W} for ({P}, {I}), {W} in ps]) + {P}[0] + 2 * {P}[1] for {P} in zip(xs, ys)])', 'T'),
     ('effect', 'sum([bumpv(xs, {V}) + {V2} for {V}, {V2} in zip(xs, ys)])', True),
     ('effect-enum', 'sum([bumpv(xs, {V2}) + {V} for {V}, {V2} in enumerate(xs)])', True),
@@ -537,6 +550,7 @@ def comp_programs():
     for pkey, lines, epi in EPOS:
         for ckey, comp, flag in ECOMPS:
             tuples = flag == 'T'
+            capture = flag == 'C'
             helper = flag is True
             for scheme in ('iter', 'plain', 'loop') + (('num',) if full else ()):
                 for wrap in (None, 'fix2') + (('p2',) if full else ()):
@@ -552,6 +566,10 @@ def comp_programs():
                             'site': 'comp', 'body': ckey, 'features': 'effect' if helper else '-'}
                     core = (scheme == 'iter' and wrap is None) or (scheme == 'plain' and wrap == 'fix2'
                                                                     and pkey == 'assign')
+                    if capture:
+                        tags['elt'] = 'capture-source' if ckey.startswith('cap-src') else 'capture'
+                        core = (scheme == 'plain' and wrap is None and pkey == 'assign') or \
+                               (scheme == 'iter' and wrap is None and pkey == 'return')
                     if ckey.startswith('sh') and ckey != 'shadowed':
                         # the shadowing comprehensions: every one at the assignment, the for-body and the
                         # return position under one scheme; all the rest is thorough
